@@ -446,6 +446,9 @@ func (mc *modelCheck) run(c *vk.Ctx) {
 		if cfg.First {
 			c.Count("histories_with_pre_vm_function", 1)
 		}
+		if c.RNG(key+"/fus").Chance(1, 5) {
+			cfg.FuncUsesStore = true // per-request drivers: the functions keep user data in the store that holds the session
+		}
 		var hist []string
 		if mc.Hist != nil {
 			hist = mc.Hist(r, a)
